@@ -172,7 +172,7 @@ func parseIptables(rs *Ruleset, text string) (*Rule, error) {
 	modules := map[string]bool{}
 	proto, protoNeg, haveProto := 0, false, false
 	var needProtoFor []string // matches that require a positive port-carrying -p
-	needICMP := ""           // "icmp" / "icmp6" if such a match is present
+	needICMP := ""            // "icmp" / "icmp6" if such a match is present
 	checkCIDR := func(s string) (netip.Prefix, error) {
 		p, e := parseCIDR(s)
 		if e != nil {
